@@ -13,6 +13,19 @@ From TV Require Import Model.Datetime Model.Numbers Model.Tree Model.Parse Model
 From TV Require Import Proofs.NoPanicBase Proofs.SpansDefs.
 Require Import Lia ZifyBool ZifyN ZifyNat.
 
+(* lia on a goal whose context is full of boolean facts about trees: keep the arithmetic only *)
+Ltac nlia :=
+  repeat match goal with
+         | H : ?T |- _ =>
+           lazymatch T with
+           | (_ <= _)%N => fail
+           | (_ < _)%N => fail
+           | @eq N _ _ => fail
+           | context [N.leb] => fail
+           | _ => clear H
+           end
+         end; lia.
+
 Definition winP {A} (Q : N -> N -> A -> Prop) (p : parser A) : Prop :=
   forall lo hi i a i', p i = Ok a i' -> (lo <= pos i)%N -> (pos i' <= hi)%N -> Q lo hi a.
 
